@@ -152,7 +152,9 @@ class FormatsStream(Stream):
             "silence when compliant, summary counters = sizes of the JSON's own lists; non-trivial = distinct outcomes")
 
     def cases(self, tier, rng):
-        for c in rc.tree_cases(tier, rng):
+        for i, c in enumerate(rc.tree_cases(tier, rng)):
+            if tier == "quick" and i % 5 >= 3:
+                continue        # four command runs per tree: the quick tier takes three fifths of the shared tree cases
             if rc.dup_free(c):
                 yield c
         for c in rc.product_cases("quick", rng):
